@@ -401,7 +401,7 @@ func c20SetMantExp(c *hx.Ctx, r *hx.RNG) {
 		cls = "SetMantExp/large-offset"
 	}
 	mm, mp := r.Mode(), digitsOf(v)+uint(r.Intn(20))
-	mant := hx.Mk(v, mp, mm)
+	mant := hx.MkR(r, v, mp, mm)
 	shape := r.Intn(2) // 0 fresh receiver, 1 z == mant
 	z := mant
 	if shape == 0 {
